@@ -1,6 +1,6 @@
 (** extraction of the C12 specifications and as-is models *)
 Require Import FastZ.
-From Dashu Require Import Base.Prelude Int.GrlSpec Int.GrlModel Int.GrlLog2Tab Int.GrlKsqrt Int.GrlLehmer Int.GrlPrimRoot Int.GrlLog2Wide Int.GrlLehmerW.
+From Dashu Require Import Base.Prelude Int.GrlSpec Int.GrlModel Int.GrlLog2Tab Int.GrlKsqrt Int.GrlLehmer Int.GrlPrimRoot Int.GrlLog2Wide Int.GrlLehmerW Int.GrlPrimRootCert.
 Extraction "model.ml"
   gcd_spec gcd_ext_cert root_cert iroot_cert root_panic sqrt_rem_spec root_rem_cert
   ilog_panic ilog_cert remove_cert remove_none remove_spec
@@ -10,4 +10,5 @@ Extraction "model.ml"
   ksqrt ksqrt_fuel sqrt_rem_large_asis
   lehmer_gcd_asis lehmer_gcd_ext_asis lehmer_guess lehmer_guess_dword
   prim_sqrt_rem_asis prim_cbrt_rem_asis nostd_log2_wide nostd_wide_bits
-  wval to_words lstep_words lext_words lehmer_iter_words highest_word_normalized highest_dword_normalized coeff_limit.
+  wval to_words lstep_words lext_words lehmer_iter_words highest_word_normalized highest_dword_normalized coeff_limit
+  sq32_class cb32_class sq64_cert cb64_cert.
